@@ -9,8 +9,10 @@ import (
 	"encoding/json"
 	"fmt"
 	"math/rand"
+	"os"
 	"path/filepath"
 	"reflect"
+	"slices"
 	"sort"
 	"strings"
 	"time"
@@ -135,24 +137,24 @@ var kindMenus = map[string][]string{
 	"file": {"/foo rwk,", "/foo m,", "/srv/b rwk,", "@{bin}/foo mrix,", "/etc/a mrix,", "/foo r,", "/Foo r,", "/foo w,", "/foo rw,", "owner /foo r,", "audit /foo r,", "deny /foo r,", "/foo r, # note", "/foé r,", "/foè r,",
 		"@{bin}/foo r,", "@{bin}/foo rix,", "@{bin}/foo rPx -> t1,", "@{bin}/foo rPx -> t2,", "/srv/a r,", "/srv/b r,", "/etc/a r,", "@{HOME}/a r,", "/a r,", "/z r,",
 		"/dev/shm/a rw,", "/dev/a rw,", "@{run}/a r,", "/tmp/a r,", "@{lib}/a mr,", "/opt/a r,", "/usr/share/a r,", "/var/a r,"},
-	"link":          {"link /a -> /b,", "link /a -> /c,", "link subset /a -> /b,", "owner link /a -> /b,", "deny link /a -> /b,", "link /A -> /b,"},
-	"capability":    {"capability chown,", "capability kill,", "capability chown kill,", "audit capability chown,", "deny capability chown,", "capability,"},
-	"network":       {"network inet stream,", "network inet dgram,", "network inet6 stream,", "network netlink raw,", "deny network inet stream,", "audit network inet stream,", "network inet,"},
-	"mount":         {"mount /a -> /b,", "mount /a -> /c,", "mount options=(ro) /a -> /b,", "mount options=(rw) /a -> /b,", "mount fstype=ext4 /a -> /b,", "mount options=(ro) fstype=ext4 /a -> /b,", "deny mount /a -> /b,", "mount -> /b,"},
-	"umount":        {"umount /a,", "umount /b,", "deny umount /a,", "audit umount /a,"},
-	"remount":       {"remount /a,", "remount /b,", "remount options=(ro) /a,", "deny remount /a,"},
-	"pivot_root":    {"pivot_root oldroot=/a /b,", "pivot_root oldroot=/a /c,", "pivot_root oldroot=/a /b -> p,", "pivot_root /b,"},
+	"link":           {"link /a -> /b,", "link /a -> /c,", "link subset /a -> /b,", "owner link /a -> /b,", "deny link /a -> /b,", "link /A -> /b,"},
+	"capability":     {"capability chown,", "capability kill,", "capability chown kill,", "audit capability chown,", "deny capability chown,", "capability,"},
+	"network":        {"network inet stream,", "network inet dgram,", "network inet6 stream,", "network netlink raw,", "deny network inet stream,", "audit network inet stream,", "network inet,"},
+	"mount":          {"mount /a -> /b,", "mount /a -> /c,", "mount options=(ro) /a -> /b,", "mount options=(rw) /a -> /b,", "mount fstype=ext4 /a -> /b,", "mount options=(ro) fstype=ext4 /a -> /b,", "deny mount /a -> /b,", "mount -> /b,"},
+	"umount":         {"umount /a,", "umount /b,", "deny umount /a,", "audit umount /a,"},
+	"remount":        {"remount /a,", "remount /b,", "remount options=(ro) /a,", "deny remount /a,"},
+	"pivot_root":     {"pivot_root oldroot=/a /b,", "pivot_root oldroot=/a /c,", "pivot_root oldroot=/a /b -> p,", "pivot_root /b,"},
 	"change_profile": {"change_profile -> a,", "change_profile -> b,", "change_profile /x -> a,", "change_profile unsafe /x -> a,", "deny change_profile -> a,"},
-	"signal":        {"signal send set=hup peer=p,", "signal receive set=hup peer=p,", "signal send set=int peer=p,", "signal (send receive) set=hup peer=p,", "signal send set=(hup int) peer=p,", "signal send peer=p,", "signal send set=hup peer=q,", "signal send set=hup,", "deny signal send set=hup peer=p,", "signal,"},
-	"ptrace":        {"ptrace read peer=p,", "ptrace trace peer=p,", "ptrace read peer=q,", "ptrace (read trace) peer=p,", "ptrace peer=p,", "deny ptrace read peer=p,", "ptrace read,"},
-	"unix":          {"unix send type=stream,", "unix receive type=stream,", "unix send type=dgram,", "unix send type=stream addr=@a,", "unix send type=stream peer=(label=l),", "unix send type=stream peer=(label=m),", "unix send type=stream peer=(addr=@b),", "deny unix send type=stream,", "unix,"},
-	"dbus":          {"dbus send bus=session path=/a interface=i member=m peer=(name=n label=l),", "dbus receive bus=session path=/a interface=i member=m peer=(name=n label=l),", "dbus send bus=system path=/a interface=i member=m peer=(name=n label=l),", "dbus send bus=session path=/b interface=i member=m peer=(name=n label=l),", "dbus send bus=session path=/a interface=j member=m peer=(name=n label=l),", "dbus send bus=session path=/a interface=i member=k peer=(name=n label=l),", "dbus send bus=session path=/a interface=i member=m peer=(name=o label=l),", "dbus send bus=session path=/a interface=i member=m peer=(name=n label=q),", "dbus bind bus=session name=n,", "dbus bind bus=session name=o,", "deny dbus send bus=session path=/a interface=i member=m peer=(name=n label=l),"},
-	"rlimit":        {"set rlimit nofile <= 10,", "set rlimit nofile <= 20,", "set rlimit nproc <= 10,"},
-	"mqueue":        {"mqueue r type=posix /a,", "mqueue r type=posix /b,", "mqueue w type=posix /a,", "mqueue r type=sysv 1,", "mqueue r type=posix label=l /a,", "deny mqueue r type=posix /a,"},
-	"io_uring":      {"io_uring sqpoll label=a,", "io_uring override_creds label=a,", "io_uring sqpoll label=b,", "deny io_uring sqpoll label=a,", "io_uring sqpoll,"},
-	"userns":        {"userns,", "deny userns,", "audit userns,"},
-	"all":           {"all,", "deny all,", "audit all,"},
-	"include":       {"include <abstractions/base>", "include <abstractions/a>", "include <abstractions/b>", "include if exists <abstractions/a>", "include if exists <local/z>", "include \"/etc/x\""},
+	"signal":         {"signal send set=hup peer=p,", "signal receive set=hup peer=p,", "signal send set=int peer=p,", "signal (send receive) set=hup peer=p,", "signal send set=(hup int) peer=p,", "signal send peer=p,", "signal send set=hup peer=q,", "signal send set=hup,", "deny signal send set=hup peer=p,", "signal,"},
+	"ptrace":         {"ptrace read peer=p,", "ptrace trace peer=p,", "ptrace read peer=q,", "ptrace (read trace) peer=p,", "ptrace peer=p,", "deny ptrace read peer=p,", "ptrace read,"},
+	"unix":           {"unix send type=stream,", "unix receive type=stream,", "unix send type=dgram,", "unix send type=stream addr=@a,", "unix send type=stream peer=(label=l),", "unix send type=stream peer=(label=m),", "unix send type=stream peer=(addr=@b),", "deny unix send type=stream,", "unix,"},
+	"dbus":           {"dbus send bus=session path=/a interface=i member=m peer=(name=n label=l),", "dbus receive bus=session path=/a interface=i member=m peer=(name=n label=l),", "dbus send bus=system path=/a interface=i member=m peer=(name=n label=l),", "dbus send bus=session path=/b interface=i member=m peer=(name=n label=l),", "dbus send bus=session path=/a interface=j member=m peer=(name=n label=l),", "dbus send bus=session path=/a interface=i member=k peer=(name=n label=l),", "dbus send bus=session path=/a interface=i member=m peer=(name=o label=l),", "dbus send bus=session path=/a interface=i member=m peer=(name=n label=q),", "dbus bind bus=session name=n,", "dbus bind bus=session name=o,", "deny dbus send bus=session path=/a interface=i member=m peer=(name=n label=l),"},
+	"rlimit":         {"set rlimit nofile <= 10,", "set rlimit nofile <= 20,", "set rlimit nproc <= 10,"},
+	"mqueue":         {"mqueue r type=posix /a,", "mqueue r type=posix /b,", "mqueue w type=posix /a,", "mqueue r type=sysv 1,", "mqueue r type=posix label=l /a,", "deny mqueue r type=posix /a,"},
+	"io_uring":       {"io_uring sqpoll label=a,", "io_uring override_creds label=a,", "io_uring sqpoll label=b,", "deny io_uring sqpoll label=a,", "io_uring sqpoll,"},
+	"userns":         {"userns,", "deny userns,", "audit userns,"},
+	"all":            {"all,", "deny all,", "audit all,"},
+	"include":        {"include <abstractions/base>", "include <abstractions/a>", "include <abstractions/b>", "include if exists <abstractions/a>", "include if exists <local/z>", "include \"/etc/x\""},
 }
 
 func kindsSorted() []string {
@@ -334,11 +336,94 @@ func checkC10(e *Env, r *Report) {
 		}
 		add("mix:"+strings.Join(texts, " | "), texts)
 	}
+	// the shipped corpus: every paragraph of every shipped profile, as the real parser reads it
+	nc, skipped := corpusParagraphs(e, r, rng, func(id string, mk func() aa.Rules) {
+		defer func() {
+			if p := recover(); p != nil {
+				r.Violate("C10|crash|"+id, fmt.Sprintf("Merge panicked on a paragraph of a shipped profile: %v", p), map[string]any{"id": id})
+			}
+		}()
+		in := abstractRules(mk())
+		out := mk().Merge()
+		outAbs := abstractRules(out)
+		out2Abs := abstractRules(out.Merge())
+		recs = append(recs, map[string]any{"ev": "merge", "id": id, "in": in, "out": outAbs, "out2": out2Abs})
+	})
+	r.Coverage["corpus_paragraphs"] = nc
+	r.Coverage["corpus_files_not_parsed"] = skipped
 	recs = append(recs, aliasEvents...)
 	r.Coverage["merge_runs"] = len(recs)
 	r.Sample(recs[0])
 	r.Sample(recs[len(recs)-1])
 	runRulesTrace(e, r, recs, "C10")
+}
+
+// corpusParagraphs hands every paragraph (two rules or more) of the shipped profiles to fn as a
+// constructor of fresh rules (Merge and Sort work in place). Files the partial parser cannot read are
+// counted, not judged. quick: a seeded sample.
+func corpusParagraphs(e *Env, r *Report, rng *rand.Rand, fn func(id string, mk func() aa.Rules)) (int, int) {
+	root := filepath.Join(e.Repo, "apparmor.d")
+	files := []string{}
+	for _, f := range listFiles(root) {
+		if strings.HasPrefix(f, "groups/") || strings.HasPrefix(f, "profiles-") {
+			files = append(files, f)
+		}
+	}
+	sort.Strings(files)
+	type para struct {
+		id   string
+		text string
+		idx  int
+	}
+	all := []para{}
+	skipped := 0
+	for _, f := range files {
+		b, err := os.ReadFile(filepath.Join(root, f))
+		if err != nil {
+			continue
+		}
+		text := string(b)
+		var n int
+		ok := func() (ok bool) {
+			defer func() {
+				if p := recover(); p != nil {
+					ok = false
+				}
+			}()
+			prs, _, err := aa.ParseRules(text)
+			if err != nil {
+				return false
+			}
+			n = len(prs)
+			for i, rs := range prs {
+				if len(rs) >= 2 {
+					all = append(all, para{fmt.Sprintf("corpus:%s#%d", f, i), text, i})
+				}
+			}
+			return true
+		}()
+		if !ok {
+			skipped++
+		}
+		_ = n
+	}
+	if e.Tier != "thorough" && len(all) > 1500 {
+		rng.Shuffle(len(all), func(i, j int) { all[i], all[j] = all[j], all[i] })
+		all = all[:1500]
+	}
+	cache := map[string]string{}
+	_ = cache
+	for _, p := range all {
+		p := p
+		fn(p.id, func() aa.Rules {
+			prs, _, err := aa.ParseRules(p.text)
+			if err != nil || p.idx >= len(prs) {
+				return aa.Rules{}
+			}
+			return prs[p.idx]
+		})
+	}
+	return len(all), skipped
 }
 
 func kindOfText(t string) string {
@@ -488,6 +573,41 @@ func checkC11(e *Env, r *Report) {
 		}
 		recs = append(recs, map[string]any{"ev": "sort", "id": "sort:mixed:" + strings.Join(ids, " | "), "results": results, "resorted": resorted})
 	}
+	// the shipped corpus: sorting a paragraph of a shipped profile gives the same list whatever order it is given in
+	ncorp, _ := corpusParagraphs(e, r, rng, func(id string, mk func() aa.Rules) {
+		defer func() {
+			if p := recover(); p != nil {
+				r.Violate("C11|crash|"+id, fmt.Sprintf("Sort panicked on a paragraph of a shipped profile: %v", p), map[string]any{"id": id})
+			}
+		}()
+		ident := func(rs aa.Rules) []string {
+			out := []string{}
+			for _, x := range rs {
+				if x != nil {
+					out = append(out, ruleIdentity(x))
+				}
+			}
+			return out
+		}
+		results := [][]string{}
+		resorted := [][]string{}
+		for variant := 0; variant < 3; variant++ {
+			rs := mk()
+			switch variant {
+			case 1:
+				slices.Reverse(rs)
+			case 2:
+				if len(rs) > 2 {
+					rs = append(rs[len(rs)/2:], rs[:len(rs)/2]...)
+				}
+			}
+			rs = rs.Sort()
+			results = append(results, ident(rs))
+			resorted = append(resorted, ident(rs.Sort()))
+		}
+		recs = append(recs, map[string]any{"ev": "sort", "id": "sort:" + id, "results": results, "resorted": resorted})
+	})
+	r.Coverage["corpus_paragraphs"] = ncorp
 	// string order (StrOrder.tla): complete sign matrices of rules that differ in one string only
 	recs = append(recs, strOrderEvents(e, r, rng)...)
 	r.Coverage["universes"] = len(kindMenus)
@@ -534,11 +654,11 @@ func strOrderEvents(e *Env, r *Report, rng *rand.Rand) []any {
 		return b.String()
 	}
 	carriers := map[string]func(v string) aa.Rule{
-		"file path":     func(v string) aa.Rule { return &aa.File{Path: "/d/x" + v, Access: []string{"r"}} },
-		"signal peer":   func(v string) aa.Rule { return &aa.Signal{Access: []string{"send"}, Peer: "p" + v} },
-		"dbus name":     func(v string) aa.Rule { return &aa.Dbus{Access: []string{"bind"}, Bus: "session", Name: "org.x" + v} },
-		"include path":  func(v string) aa.Rule { return &aa.Include{Path: "abstractions/x" + v, IsMagic: true} },
-		"mount point":   func(v string) aa.Rule { return &aa.Mount{MountPoint: "/mnt/x" + v} },
+		"file path":      func(v string) aa.Rule { return &aa.File{Path: "/d/x" + v, Access: []string{"r"}} },
+		"signal peer":    func(v string) aa.Rule { return &aa.Signal{Access: []string{"send"}, Peer: "p" + v} },
+		"dbus name":      func(v string) aa.Rule { return &aa.Dbus{Access: []string{"bind"}, Bus: "session", Name: "org.x" + v} },
+		"include path":   func(v string) aa.Rule { return &aa.Include{Path: "abstractions/x" + v, IsMagic: true} },
+		"mount point":    func(v string) aa.Rule { return &aa.Mount{MountPoint: "/mnt/x" + v} },
 		"change_profile": func(v string) aa.Rule { return &aa.ChangeProfile{ProfileName: "x" + v} },
 	}
 	names := []string{}
